@@ -559,7 +559,18 @@ func runC10(c *wk.Ctx) {
 				if r.Bool() {
 					emitters["emit"] = schema.NewSignalSchema("emit", mk(), nil)
 				}
-				steps = append(steps, schema.NewCallableStepWithSignals[any, any](id, mk(), outs, handlers, emitters, nil, nil, func(context.Context, any, any) (string, any) { return "ok", nil }))
+				// a display may lack any of its three parts, the name included
+				desc := "what the step does"
+				var display schema.Display
+				switch r.Intn(4) {
+				case 0:
+					display = schema.NewDisplayValue(nil, &desc, nil)
+				case 1:
+					display = schema.NewDisplayValue(nil, nil, nil)
+				case 2:
+					display = schema.NewDisplayValue(&desc, nil, nil)
+				}
+				steps = append(steps, schema.NewCallableStepWithSignals[any, any](id, mk(), outs, handlers, emitters, display, nil, func(context.Context, any, any) (string, any) { return "ok", nil }))
 			}
 			var err error
 			if d0, err = schema.NewCallableSchema(steps...).SelfSerialize(); err != nil {
